@@ -9,6 +9,8 @@ from . import mergerules as mr
 from . import mergetrace as mt
 from . import tr
 
+from .common import Guard  # noqa: E402
+
 PROP = 'C02'
 DECIDED = [
     'R1: Builder.flatten is a left fold over all stages (accumulator starts at stages[0], visits 1..n-1 in order, accumulator is the receiver of merge, result replaces stages); merge = premerge + on_merge with an empty path.',
@@ -34,7 +36,7 @@ def r5(repo, run):
     # ConfigList.ayns.on_merge_impl, with the path facts evaluated for concrete keys against a list of length 3
     li = repo.func('ConfigList.ayns.on_merge_impl')
     paths = tr.paths_of(repo, li, no_inline=set(mt.NI), follow_exceptions=True)
-    KEYS = ('each(other.ayns.children_names())', 'each(other)', 'each(other.keys())', 'each(other._children)', 'each(other._children.keys())', 'each(other._children.items())[0]', 'each(other.ayns.named_children())[0]')
+    KEYS = ('each(sorted(other.ayns.children_names()))', 'each(sorted(other._children))', 'each(list(other.ayns.children_names()))', 'each(other.ayns.children_names())', 'each(other)', 'each(other.keys())', 'each(other._children)', 'each(other._children.keys())', 'each(other._children.items())[0]', 'each(other.ayns.named_children())[0]')
     mp = [p for p in paths if tr.fact(p, 'isinstance(other, dict)', True) or tr.fact(p, 'isinstance(other, ConfigDict)', True)]
     if not mp:
         raise AnalysisError('ConfigList.on_merge_impl: mapping-onto-list branch not recognised')
@@ -135,12 +137,14 @@ def r6(repo, run):
 
 
 def check(repo, run, tier):
-    r6(repo, run)
-    mr.flatten_fold(repo, run, 'C02.R1')
-    mr.key_loop_paths(repo, run, 'C02.R2')
-    mr.removal_guards(repo, run, 'C02.R3')
-    mr.leaf_winner_table(repo, run, 'C02.R4')
-    r5(repo, run)
+    g = Guard()
+    g(r6, repo, run)
+    g(mr.flatten_fold, repo, run, 'C02.R1')
+    g(mr.key_loop_paths, repo, run, 'C02.R2')
+    g(mr.removal_guards, repo, run, 'C02.R3')
+    g(mr.leaf_winner_table, repo, run, 'C02.R4')
+    g(r5, repo, run)
+    g.done()
 
 
 def mutants(repo):
